@@ -18,6 +18,7 @@ struct Leaf {
     struct M { bool on; } am[4];
     char  bl[4];
     char  str[16];
+    char  lstr[48];      // room for values beyond std::string's 15-byte in-place buffer
     int   acts;
     void act(void)   { acts++; }
     void acti(int i) { acts += i; }
